@@ -35,6 +35,8 @@ type FuncSpec struct {
 	ErrOn     []int `json:"err_on,omitempty"`
 	ErrPeriod int   `json:"err_period,omitempty"`
 	Status    int   `json:"status,omitempty"`
+	// Latin1: some results of a "len" function are padded with bytes that are not valid UTF-8
+	Latin1 bool `json:"latin1,omitempty"`
 }
 
 // FuncResult is what a call returns.
@@ -73,7 +75,7 @@ func (f *FuncSpec) Result(n int, input []byte, lang string) FuncResult {
 		r.Content = ""
 	case "len":
 		l := f.Lens[(n-1)%len(f.Lens)]
-		r.Content = idPadded(f.Sym, n, l)
+		r.Content = idPadded(f.Sym, n, l, f.Latin1)
 	case "lang":
 		r.Content = f.Codes[(n-1)%len(f.Codes)]
 	case "echo":
@@ -91,7 +93,7 @@ func (f *FuncSpec) Result(n int, input []byte, lang string) FuncResult {
 }
 
 // idPadded returns a string of exactly l bytes that starts with "<sym>#<n>" when it fits.
-func idPadded(sym string, n, l int) string {
+func idPadded(sym string, n, l int, latin1 bool) string {
 	id := fmt.Sprintf("%s#%d", sym, n)
 	if l <= 0 {
 		return ""
@@ -103,6 +105,10 @@ func idPadded(sym string, n, l int) string {
 	if (n+l)%3 == 0 {
 		// multi-byte padding: limits count bytes, not characters
 		return id + strings.Repeat("é", pad/2) + strings.Repeat("=", pad%2)
+	}
+	if latin1 && (n+l)%3 == 1 {
+		// bytes that are not UTF-8 (Latin-1 text from a legacy backend): content is bytes to the library
+		return id + strings.Repeat("\xe9", pad)
 	}
 	return id + strings.Repeat("=", pad)
 }
